@@ -173,41 +173,66 @@ func c08Plan(fs *Facts, f *File) {
 	}
 }
 
+// The route logic exists twice in the gateway: GetByIndexStream and (per query, inside a function
+// literal) GetByIndexStreamFromMany.  The facts are read off each copy; a fact is set only when both
+// copies give the same value.
+func c08StreamFactsOf(src, maxVar string) map[string]Tri {
+	out := map[string]Tri{}
+	steps := "candidates := collectBucketCandidates(swampInterface, plan.Hints) candidates = applyTimeRange(candidates, beaconType, fromTime, toTime) sortCandidates(candidates, beaconType, order) treasures = applyFromLimit(candidates, in.GetFrom(), in.GetLimit()) residualFilters = plan.Residual"
+	gateOld := "if plan.Mode != PlanModeBypass && bucketExecPreconditions(beaconType) { "
+	gateNew := "if plan.Mode != PlanModeBypass && bucketExecPreconditions(beaconType) && in.GetFrom() == 0 && in.GetLimit() == 0 { "
+	relabel := " if hasAnyLabels(filters) { residualFilters = filters }"
+	scan := "treasures, err = swampInterface.GetTreasuresByBeacon( beaconType, order, in.GetFrom(), in.GetLimit(), fromTime, toTime)"
+	if !strings.Contains(src, "plan := PlanFilter(filters)") || !strings.Contains(src, "filters := in.GetFilters()") ||
+		!strings.Contains(src, "fromTime, toTime := parseOptionalTimestamps(in.GetFromTime(), in.GetToTime())") ||
+		!strings.Contains(src, "beaconType := inputIndexTypeToBeaconType(in.GetIndexType()) order := inputOrderTypeToBeaconOrderType(in.GetOrderType())") {
+		return out
+	}
+	gated := strings.Contains(src, gateNew+steps)
+	if gated || strings.Contains(src, gateOld+steps) {
+		out["bucketPagingAfterFilter"] = No
+		out["pagedQueriesBypass"] = TriOf(gated)
+		out["bucketChecksAttr"] = No // refined by c08ExecFacts
+	}
+	if strings.Contains(src, scan) && strings.Contains(src, "residualFilters = filters } "+maxVar+" := in.GetMaxResults()") {
+		out["scanPagingAfterFilter"] = No
+	}
+	if strings.Contains(src, "needsMeta := hasAnyLabels(residualFilters)") &&
+		strings.Contains(src, "matched, meta = evaluateNativeFilterGroupWithMeta(treasureInterface, residualFilters)") &&
+		strings.Contains(src, "matched = evaluateNativeFilterGroup(treasureInterface, residualFilters)") &&
+		!strings.Contains(src, "plan.Hints[") && strings.Count(src, "MatchedLabels") == 1 {
+		switch {
+		case strings.Contains(src, steps+relabel+" } else {"):
+			out["labelReattach"] = Yes
+		case strings.Contains(src, steps+" } else {"):
+			out["labelReattach"] = No
+		}
+	}
+	return out
+}
+
 func c08Stream(fs *Facts, f *File) {
 	fd := f.Func("Gateway", "GetByIndexStream")
-	if fd == nil {
+	fm := f.Func("Gateway", "GetByIndexStreamFromMany")
+	if fd == nil || fm == nil {
 		return
 	}
 	c07Canon(fd, []string{"g", "in", "stream", "swampName", "err", "hydraInterface", "swampInterface", "fromTime", "toTime", "beaconType",
 		"order", "filters", "plan", "treasures", "residualFilters", "candidates", "err", "maxResults", "includeMap", "excludeMap",
 		"needsMeta", "matchCount", "treasureInterface", "key", "included", "excluded", "matched", "meta", "resp", "t", "err"})
 	where := c08At(c08Gateway, f, fd)
-	src := f.Str(fd.Body)
-	steps := "candidates := collectBucketCandidates(swampInterface, plan.Hints) candidates = applyTimeRange(candidates, beaconType, fromTime, toTime) sortCandidates(candidates, beaconType, order) treasures = applyFromLimit(candidates, in.GetFrom(), in.GetLimit()) residualFilters = plan.Residual"
-	gateOld := "if plan.Mode != PlanModeBypass && bucketExecPreconditions(beaconType) { "
-	gateNew := "if plan.Mode != PlanModeBypass && bucketExecPreconditions(beaconType) && in.GetFrom() == 0 && in.GetLimit() == 0 { "
-	relabel := " if hasAnyLabels(filters) { residualFilters = filters }"
-	scan := "treasures, err = swampInterface.GetTreasuresByBeacon( beaconType, order, in.GetFrom(), in.GetLimit(), fromTime, toTime)"
-	if !strings.Contains(src, "plan := PlanFilter(filters)") {
-		return
+	one := c08StreamFactsOf(f.Str(fd.Body), "maxResults")
+	// the per-query copy: the request is `query` there
+	many := c08StreamFactsOf(strings.ReplaceAll(strings.ReplaceAll(f.Str(fm.Body), "query.", "in."), "var err error ", ""), "queryMax")
+	oneSrc := strings.ReplaceAll(f.Str(fd.Body), "var err error ", "")
+	if len(one) > 0 && len(c08StreamFactsOf(oneSrc, "maxResults")) > 0 {
+		one = c08StreamFactsOf(oneSrc, "maxResults")
 	}
-	gated := strings.Contains(src, gateNew+steps)
-	if gated || strings.Contains(src, gateOld+steps) {
-		fs.Tri("bucketPagingAfterFilter", No, where)
-		fs.Tri("pagedQueriesBypass", TriOf(gated), where)
-		fs.Tri("bucketChecksAttr", No, where) // refined by c08ExecFacts
-	}
-	if strings.Contains(src, scan) && strings.Contains(src, "residualFilters = filters } maxResults") {
-		fs.Tri("scanPagingAfterFilter", No, where)
-	}
-	if strings.Contains(src, "needsMeta := hasAnyLabels(residualFilters)") &&
-		strings.Contains(src, "matched, meta = evaluateNativeFilterGroupWithMeta(treasureInterface, residualFilters)") &&
-		!strings.Contains(src, "plan.Hints[") && strings.Count(src, "MatchedLabels") == 1 {
-		switch {
-		case strings.Contains(src, steps+relabel+" } else {"):
-			fs.Tri("labelReattach", Yes, where)
-		case strings.Contains(src, steps+" } else {"):
-			fs.Tri("labelReattach", No, where)
+	for k, v := range one {
+		if mv, ok := many[k]; ok && mv == v {
+			fs.Tri(k, v, where)
+		} else {
+			fs.Tri(k, Unknown, c08At(c08Gateway, f, fm))
 		}
 	}
 }
